@@ -17,7 +17,8 @@ ASSUMPTIONS = [
     "and is outside the property's clauses)",
     "new field names are not already visible from the scope they are added "
     "to; start_at >= 0; explicit lengths >= 1",
-    "a history ends at the first assign_fields() that raises",
+    "a history ends at the first assign_fields() that raises, after one "
+    "repetition of the refused call",
     "completeness is asserted when no field has an explicit position, "
     "assign_fields() is first called after all definitions and values, and "
     "the hierarchy is single-selector (all child scopes of a node are keyed "
@@ -482,6 +483,19 @@ def _do_assign(model, bf, stats, check_complete):
                      "needed": _expected_width(model),
                      "fields": _dump(model)})
             stats["excluded"] += 1
+        # the program tries again (or carries on using the bit field after
+        # logging the error): the same definitions are refused again, or -
+        # should the second attempt return - the layout it reports must be
+        # a valid one like any other
+        try:
+            with sut("assign_fields (again, after a refusal)", (ValueError,)):
+                bf.assign_fields()
+        except ValueError:
+            stats["refused_twice"] = stats.get("refused_twice", 0) + 1
+            return False
+        stats["layouts"] += 1
+        model.laid_out = True
+        _verify_layout(model, bf, stats)
         return False
     stats["layouts"] += 1
     model.laid_out = True
@@ -628,6 +642,8 @@ def _outcome(model, stats):
                        (["layout-ok"] if stats["layouts"] else
                         ["layout-failed"]) +
                        (["explicit-positions"] if model.any_explicit_pos
+                        else []) +
+                       (["refused-twice"] if stats.get("refused_twice")
                         else []) +
                        (["multi-selector"] if not model.single_selector()
                         else [])}
